@@ -7,6 +7,8 @@ import (
 	"testing"
 	"time"
 
+	"github.com/celestiaorg/go-header"
+
 	"verif/vk"
 )
 
@@ -17,10 +19,14 @@ type c15Case struct {
 	Forged bool   `json:"forged"`
 	// FailAt: 1-based index of the intermediate fetch that fails (0 = none)
 	FailAt int `json:"fail_at"`
+	// NotFound: the failing fetch answers header.ErrNotFound instead of a generic error
+	NotFound bool `json:"not_found,omitempty"`
+	// Persist: every fetch from the FailAt-th on fails (the getter lost the headers for good)
+	Persist bool `json:"persist,omitempty"`
 }
 
 func (c c15Case) String() string {
-	return fmt.Sprintf("head=%d distance=%d R=%d forged=%v failAt=%d", c.S, c.D, c.R, c.Forged, c.FailAt)
+	return fmt.Sprintf("head=%d distance=%d R=%d forged=%v failAt=%d notfound=%v persist=%v", c.S, c.D, c.R, c.Forged, c.FailAt, c.NotFound, c.Persist)
 }
 
 type c15Out struct {
@@ -59,7 +65,10 @@ func c15Exec(t *testing.T, run *vk.Run, c c15Case) (o c15Out, ok bool) {
 			if n > budget {
 				return &getterResp{err: fmt.Errorf("vk: fetch budget %d exceeded", budget)}
 			}
-			if c.FailAt != 0 && n == c.FailAt {
+			if c.FailAt != 0 && (n == c.FailAt || (c.Persist && n > c.FailAt)) {
+				if c.NotFound {
+					return &getterResp{err: header.ErrNotFound}
+				}
 				return &getterResp{err: errGetter}
 			}
 			return nil
@@ -99,7 +108,7 @@ func c15Exec(t *testing.T, run *vk.Run, c c15Case) (o c15Out, ok bool) {
 func TestC15(t *testing.T) {
 	run := vk.NewRun("C15", "model_checking")
 	defer run.Finish()
-	run.SetRule("real Syncer gossip verifier with a real store: every (subjective head in {1,5}, distance d = 2..D, trust range R = 1..d and unlimited, candidate honest | forged, failing intermediate fetch k = none | 1..(number of fetches of the fault-free run)) is delivered; oracle: accept iff honest and no needed fetch failed, refusal is an error and the candidate is neither pending nor stored, only chain headers are promoted, fetches <= d*(floor(log2 d)+2); distinct = (d, R, forged, fault position class, verdict)")
+	run.SetRule("real Syncer gossip verifier with a real store: every (subjective head in {1,5}, distance d = 2..D, trust range R = 1..d and unlimited, candidate honest | forged, failing intermediate fetch k = none | 1..(number of fetches of the fault-free run), failing with a generic error | ErrNotFound, once | for every fetch from k on) is delivered; oracle: accept iff honest and no needed fetch failed, refusal is an error and the candidate is neither pending nor stored, only chain headers are promoted, fetches <= d*(floor(log2 d)+2); distinct = (d, R, forged, fault position class, verdict)")
 	run.Assume("the getter is trusted and honest apart from injected fetch errors")
 
 	var rc c15Case
@@ -155,14 +164,16 @@ func TestC15(t *testing.T) {
 				run.Sample(b.String() + fmt.Sprintf(" -> fetches=%d err=%v", o.fetches, o.err != nil))
 			}
 			for k := 1; k <= o.fetches; k++ {
-				fc := b
-				fc.FailAt = k
-				fo, ok3 := c15Exec(t, run, fc)
-				if !ok3 {
-					continue
+				for mode := 0; mode < 4; mode++ {
+					fc := b
+					fc.FailAt, fc.NotFound, fc.Persist = k, mode&1 != 0, mode&2 != 0
+					fo, ok3 := c15Exec(t, run, fc)
+					if !ok3 {
+						continue
+					}
+					run.AddEval(1)
+					c15Check(run, fc, fo, o.fetches)
 				}
-				run.AddEval(1)
-				c15Check(run, fc, fo, o.fetches)
 			}
 		}
 	})
@@ -180,6 +191,12 @@ func c15Check(run *vk.Run, c c15Case, o c15Out, baseFetches int) {
 	fault := "none"
 	if c.FailAt != 0 {
 		fault = "fetch-error"
+		if c.NotFound {
+			fault = "fetch-notfound"
+		}
+		if c.Persist {
+			fault += "-persistent"
+		}
 	}
 	rel := "R<d"
 	if c.R == 0 || c.R >= c.D {
